@@ -427,6 +427,83 @@ func Mentions(v ssa.Value, pred func(ssa.Value) bool) bool {
 	return walk(v, 0)
 }
 
+// MentionsThroughCalls is Mentions with one refinement: the result of a static call to a source function is followed
+// only into the arguments that result can depend on (by data flow inside the callee: the returned value at that
+// result index mentions the parameter), instead of into every argument. inScope says which callees are looked
+// into; all others are treated as by Mentions.
+func MentionsThroughCalls(v ssa.Value, pred func(ssa.Value) bool, inScope func(*ssa.Function) bool) bool {
+	seen := map[ssa.Value]bool{}
+	deps := func(g *ssa.Function, idx int) map[int]bool {
+		out := map[int]bool{}
+		for _, b := range g.Blocks {
+			ret, ok := b.Instrs[len(b.Instrs)-1].(*ssa.Return)
+			if !ok || idx >= len(ret.Results) {
+				continue
+			}
+			for pi, p := range g.Params {
+				pp := p
+				if Mentions(ret.Results[idx], func(w ssa.Value) bool { return w == ssa.Value(pp) }) {
+					out[pi] = true
+				}
+			}
+		}
+		return out
+	}
+	var walk func(v ssa.Value, d int) bool
+	walkCall := func(c *ssa.Call, idx int, d int) (bool, bool) {
+		g := c.Call.StaticCallee()
+		if g == nil || len(g.Blocks) == 0 || g.Recover != nil || inScope == nil || !inScope(g) || len(g.Params) != len(c.Call.Args) {
+			return false, false
+		}
+		for pi := range deps(g, idx) {
+			if walk(c.Call.Args[pi], d+1) {
+				return true, true
+			}
+		}
+		return false, true
+	}
+	walk = func(v ssa.Value, d int) bool {
+		if v == nil || seen[v] || d > 25 {
+			return false
+		}
+		seen[v] = true
+		if pred(v) {
+			return true
+		}
+		if a, ok := v.(*ssa.Alloc); ok {
+			for _, s := range StoresInto(a) {
+				if walk(s, d+1) {
+					return true
+				}
+			}
+			return false
+		}
+		if ex, ok := v.(*ssa.Extract); ok {
+			if c, ok := ex.Tuple.(*ssa.Call); ok {
+				if res, handled := walkCall(c, ex.Index, d); handled {
+					return res
+				}
+			}
+		}
+		if c, ok := v.(*ssa.Call); ok && c.Call.Signature().Results().Len() == 1 {
+			if res, handled := walkCall(c, 0, d); handled {
+				return res
+			}
+		}
+		in, ok := v.(ssa.Instruction)
+		if !ok {
+			return false
+		}
+		for _, op := range in.Operands(nil) {
+			if op != nil && *op != nil && walk(*op, d+1) {
+				return true
+			}
+		}
+		return false
+	}
+	return walk(v, 0)
+}
+
 // IsCallNamed is a Mentions predicate builder: v is a call to one of names.
 func IsCallNamed(names ...string) func(ssa.Value) bool {
 	return func(v ssa.Value) bool {
